@@ -20,6 +20,7 @@ import time
 from . import core, inputs
 
 BUDGET_S = 10
+MAX_TIMEOUTS_PER_CHUNK = 8
 
 
 def configs():
@@ -139,11 +140,21 @@ def work_chunk(args):
     signal.signal(signal.SIGALRM, _alarm)
     m = core.impl()
     out = []
+    n_to = 0
     for k, text in enumerate(texts):
+        t_to = 0
         for ci in cfg_idx_lists[k]:
             cfg = CONFIGS[ci]
             form = forms[(start + k + ci) % len(forms)]
+            if t_to >= 2 or n_to >= MAX_TIMEOUTS_PER_CHUNK:
+                # enough calls on this input / in this chunk have exhausted their budget: each is a reported violation already;
+                # running the rest would only multiply the waiting time (counted, and reported in the evidence)
+                out.append((start + k, ci, form, 'skipped', 0.0))
+                continue
             oc, rt, exc, wall = one_call(m, text, form, cfg)
+            if oc == 'timeout' and cfg[2] != 'GithubWikiRenderer':      # (that renderer's recorded finding is slow by itself)
+                t_to += 1
+                n_to += 1
             if oc == 'return' and rt == 'str':
                 out.append((start + k, ci, form, None, wall))
             else:
@@ -275,6 +286,9 @@ def run():
     # merge identical projections; TLC judges each distinct projection
     groups = {}
     slow = 0.0
+    skipped = sum(1 for r in results if r[3] == 'skipped')
+    results = [r for r in results if r[3] != 'skipped']
+    ck.extra['calls_skipped_after_timeouts'] = skipped
     for (ti, ci, form, proj_, wall) in results:
         slow = max(slow, wall)
         ck.count((ti, ci, form) if texts[ti].strip() else None)
